@@ -30,6 +30,17 @@ CHECKS = {
             "with their declared result kinds over every argument-kind tuple with concrete values.",
             "int conforms to Scalar(real); exponents are non-negative integer constants; programs on which inference raises are counted and skipped.",
             "DESIGN.md 2/C09"),
+    "C11": ("fault enumeration: every (call site, invocation index) of generated programs is made to raise once, in both Python back ends; oracle = identity, clean-up, allowed-value sets from the reference trace + recorded graph, resume-vs-fresh differential",
+            "For every generated program and 1-4 step plan the reference run lists all invocations of every user-function call site; each is faulted once in the interpreter and in the generated class. "
+            "The same exception object must surface, no temporary may remain, each persistent variable must hold its pre-step value or a reference value of a write that does not depend on the failing statement "
+            "(element-wise mixes for interrupted loops), the next phase must be the default successor, and continuing for <= 3 steps must equal a fresh stepper started from the copied state. Complete over fault points per program; programs sampled.",
+            "Dependence is read from the recorded graph (C02); the reference trace comes from vlib/refexec.py; resumption is skipped when values are about to leave the exact domain.",
+            "DESIGN.md 2/C11"),
+    "C16": ("Hypothesis-generated pairs of programs with clashing temporaries, loop counters, flags and ids x predicates; oracle = structural renaming check (injective rho/sigma) + interpreter differential fused vs alone",
+            "fuse_two_dags is run on generated pairs; the fusion must contain A unchanged and B under an injective variable renaming that is the identity on persistent names / names the predicate rejects and whose images avoid A's names, "
+            "with ids, depends_on, guards and loop counters renamed consistently; then A alone, B alone and the fusion are executed for 1-3 steps and private persistent variables compared. Sampled.",
+            "Premise of the property enforced by construction (disjoint written persistent variables, <t>/<dt> not assigned, no early exits); interpreter trusted via C01.",
+            "DESIGN.md 2/C16"),
     "C14": ("exhaustive unify laws over the 9-kind universe (81 pairs, 729 triples) + Hypothesis programs and adversarial statement lists x permutations x PYTHONHASHSEED child processes; oracle = equal tables",
             "Idempotence, commutativity and associativity 'wherever defined' are checked on all pairs/triples; generated programs and def-order-free adversarial statement lists are inferred in 8 (quick) / 24 (thorough) "
             "presentation orders of statements and phases, and re-inferred from the builder's frozensets in child processes under 4/16 hash seeds; tables or failure classes must coincide.",
@@ -88,7 +99,7 @@ def main():
             evidence_file="evidence/%s.json" % pid,
             replay_cmd_template="./check %s --replay {path}" % pid,
             engine="vlib",
-            level_claimed=dict(category="exploration", text=text, design_ref=ref),
+            level_claimed=dict(category="fault_enumeration" if pid == "C11" else "exploration", text=text, design_ref=ref),
             level_note=note,
             technique=tech,
         ))
